@@ -351,6 +351,18 @@ class FnTranslator:
             if self.interior and name == "find" and len(e) == 4 and e[3][0] == "closure" and e[1][0] == "mcall" and \
                     S(e[1][2]) in ("into_iter", "iter") and len(e[1]) == 3:
                 return self.array_find(e[1][1], e[3])
+            if self.interior and name == "filter_map" and len(e) == 4 and e[3][0] == "closure" and e[3][2][0] != "block" and \
+                    e[1][0] == "mcall" and S(e[1][2]) in ("into_iter", "iter") and len(e[1]) == 3 and len(e[3][1]) == 2 and e[3][1][1][0] == "pident":
+                # `xs.iter().filter_map(|v| EXPR)`: the contents of the `Some` answers, in order
+                v = S(e[3][1][1][1])
+                self.hof_no = getattr(self, "hof_no", 0) + 1
+                n = self.hof_no
+                return ("(EBlock [SLet (PVar \"fmp_src%d\") %s; SLet (PVar \"fmp_acc%d\") (EArr []); "
+                        "SExpr (EFor \"fmp_i%d\" (EConst (VNat 0)) (ECall \"len\" [EVar \"fmp_src%d\"]) "
+                        "(EBlock [SLet (PVar %s) (EIndex (EVar \"fmp_src%d\") (EVar \"fmp_i%d\")); "
+                        "STail (EIfLet (PCon \"Some\" [PVar \"fmp_x%d\"]) %s "
+                        "(EAssign \"fmp_acc%d\" [] (ECall \"push\" [EVar \"fmp_acc%d\"; EVar \"fmp_x%d\"])) (EConst VUnit))])); "
+                        "STail (EVar \"fmp_acc%d\")])" % (n, self.expr(e[1][1]), n, n, n, cs(v), n, n, n, self.expr(e[3][2]), n, n, n, n))
             if self.interior and name == "collect" and len(e) == 3 and e[1][0] == "mcall" and S(e[1][2]) == "filter_map" and \
                     len(e[1]) == 4 and e[1][3][0] == "closure" and getattr(self, "lift_closures", False):
                 return self.filter_map_lifted(e[1][1], e[1][3])
@@ -1286,16 +1298,42 @@ def translate_generics():
     def setup_mv(t):
         t.interior = True
         t.lift_closures = True
-        t.accessor_methods = {"attr_msg", "attrs_to_forward", "into_sig", "msg_type"}
-        t.own_methods = {"used_unused": "CheckGenerics::used_unused"}
+        t.accessor_methods = {"msg_type"}
+        t.own_methods = {"used_unused": "CheckGenerics::used_unused", "attr_msg": "VariantDesc::attr_msg",
+                         "attrs_to_forward": "VariantDesc::attrs_to_forward", "into_sig": "VariantDesc::into_sig"}
     FOREIGN["MsgVariant::new"] = "call:extern::MsgVariant::new"
     del LAST_AUX_FNS[:]
     mv = translate_methods("types/msg_variant.rs", {"MsgVariants": ["new"]}, setup=setup_mv,
                            kv=fetch_ast(os.path.join(common.REPO, "sylvia-derive", "src", "types", "msg_variant.rs")),
-                           extra_known=known | {"extern::MsgVariant::new", "filter_wheres", "CheckGenerics::used_unused"})
+                           extra_known=known | {"extern::MsgVariant::new", "filter_wheres", "CheckGenerics::used_unused",
+                                                "VariantDesc::attr_msg", "VariantDesc::attrs_to_forward", "VariantDesc::into_sig"})
     aux = list(LAST_AUX_FNS)
     del LAST_AUX_FNS[:]
-    return out + [got[w] for w in wanted] + mv + aux
+    # the accessors of a method description (parser/variant_descs.rs)
+    def setup_vd(t):
+        t.interior = True
+    vd = translate_methods("parser/variant_descs.rs", {"VariantDesc": ["into_sig", "attr_msg", "attrs_to_forward"]}, setup=setup_vd,
+                           kv=fetch_ast(os.path.join(common.REPO, "sylvia-derive", "src", "parser", "variant_descs.rs")))
+    return out + [got[w] for w in wanted] + mv + aux + vd
+
+
+def translate_variant_descs():
+    """parser/variant_descs.rs: `VariantDesc::new` (a method's description: its parsed attributes and its signature) and
+    `as_variants` of an impl block / a trait (the descriptions of its methods, in order; other items are skipped)."""
+    def setup(t):
+        t.interior = True
+    FOREIGN["Box::new"] = "into"
+    FOREIGN["ParsedSylviaAttributes::new"] = "call:ParsedSylviaAttributes::new"
+    kv = fetch_ast(os.path.join(common.REPO, "sylvia-derive", "src", "parser", "variant_descs.rs"))
+    known = {"ParsedSylviaAttributes::new", "VariantDesc::new", "push", "len"}
+    try:
+        out = translate_methods("parser/variant_descs.rs", {"VariantDesc": ["new"]}, setup=setup, kv=kv, extra_known=known)
+        for ty in ("ItemImpl", "ItemTrait"):
+            fns = translate_methods("parser/variant_descs.rs", {ty: ["as_variants"]}, setup=setup, kv=kv, extra_known=known)
+            out += fns
+    finally:
+        FOREIGN["ParsedSylviaAttributes::new"] = "call:extern::ParsedSylviaAttributes::new"
+    return out
 
 
 def translate_checks():
@@ -1555,6 +1593,10 @@ def generate():
     except (TranslateError, KeyError, IndexError, ValueError, TypeError, AttributeError) as e:
         genericsfns, _ = [], errors.append("macro logic (generics: parser/check_generics.rs, utils.rs): %s" % e)
     try:
+        vdescfns = translate_variant_descs()
+    except (TranslateError, KeyError, IndexError, ValueError, TypeError, AttributeError) as e:
+        vdescfns, _ = [], errors.append("macro logic (method descriptions: parser/variant_descs.rs): %s" % e)
+    try:
         foldfns = translate_fold()
     except (TranslateError, KeyError, IndexError, ValueError, TypeError, AttributeError) as e:
         foldfns, _ = [], errors.append("macro logic (fold.rs StripInput): %s" % e)
@@ -1631,6 +1673,9 @@ def generate():
         "GenImpGenerics.v": gen_file("which type parameters and bounds a message type carries (parser/check_generics.rs, utils.rs)", [
             "(* CheckGenerics::{new, used, used_unused, visit_path}, filter_wheres, as_where_clause, emit_bracketed_generics *)",
             "Definition generics_fns : program :=", prog(genericsfns)]),
+        "GenImpVariants.v": gen_file("the descriptions of the methods of an impl block / a trait (parser/variant_descs.rs)", [
+            "(* VariantDesc::new, ItemImpl::as_variants, ItemTrait::as_variants *)",
+            "Definition variants_fns : program :=", prog(vdescfns)]),
         "GenImpBridge.v": gen_file("the contract-level message (types/interfaces.rs, types/msg_type.rs, contract/communication/wrapper_msg.rs)", [
             "(* Interfaces::emit_*, MsgType::emit_ctx_dispatch_values, GlueMessage::emit *)",
             "Definition bridge_fns : program :=", prog(bridge)])}
